@@ -739,7 +739,8 @@ def gen_merge_case(rng):
         cand_written += [rel, "./" + rel, p, "sub/../" + rel]
     cand_written += ["*.dae", "sub/*.dae", "conf.d/*.dae", "conf.d/*", "*", "sub/*", "*/*.dae", "?.dae", "missing.dae", "../out.dae",
                      "../*.dae", "dir.dae", "sub", ROOT + "/etc/*.dae", ROOT + "/etc/./b.dae", "RAW:f(x) -> y", "RAW:k: b.dae",
-                     "RAW:s { }", "conf.d/??.dae", "lnk.dae", "ldir/*.dae", "ldir/o.dae", "sub/l.dae"]
+                     "RAW:s { }", "conf.d/??.dae", "lnk.dae", "ldir/*.dae", "ldir/o.dae", "sub/l.dae",
+                     "../etc.d/s.dae", "../etc-backup/*.dae", ROOT + "/etcetera/s.dae", "../etc_/s.dae", "../et/s.dae", "../etc*/*.dae"]
     mode_of = {}
     shape = rng.random()
     for p in all_files:
@@ -760,6 +761,9 @@ def gen_merge_case(rng):
         mode = rng.choice([0o600] * 36 + [0o640] * 4 + [0o400] * 2 + [0o644, 0o660, 0o604, 0o620])
         mode_of[p] = mode
         vt.add_file(p, mode, text)
+    if rng.random() < 0.3:
+        sibname = rng.choice(["etc.d", "etc-backup", "etcetera", "etc_", "et"])
+        vt.add_file(ROOT + "/" + sibname + "/s.dae", 0o600, "global { sib: 1 }\n")
     if rng.random() < 0.25:
         tgt = rng.choice([p for p in all_files if p != entry] or [entry])
         vt.add_link(entry_dir + "/" + rng.choice(["lnk.dae", "conf.d/30.dae", "sub/l.dae"]), tgt)
@@ -806,6 +810,22 @@ def fixed_merge_cases():
     mk([("entry.dae", 0o600, "include { f(x) -> y }\n")])                                      # include item is not a value
     mk([("entry.conf", 0o600, "global { }\n")], entry="entry.conf")                           # the entry itself is not .dae
     mk([("entry.dae", 0o600, "global { a: 1 }\nglobal { b: 2 }\nrouting { }\nglobal { c: 3 }\n")])   # equally named sections of one file
+    # sibling directories whose NAME extends (or is extended by) the entry directory's name: containment is by
+    # path components, a common text prefix is not containment
+    def sib(entry_dir_name, sibling, how):
+        vt = VTree()
+        D = ROOT + "/" + entry_dir_name
+        S = ROOT + "/" + sibling
+        inc = {"rel": "'../%s/a.dae'" % sibling, "abs": "'%s/a.dae'" % S, "glob": "'../%s/*.dae'" % sibling, "absglob": "'%s/*.dae'" % S}[how]
+        vt.add_file(D + "/entry.dae", 0o600, "include { %s }\nglobal { e: 1 }\n" % inc)
+        vt.add_file(S + "/a.dae", 0o600, "global { sibling: 1 }\n")
+        out.append({"vt": vt, "entry": D + "/entry.dae", "entry_dir": D})
+    for sibling in ("d.d", "d-backup", "dd", "d_"):
+        for how in ("rel", "abs", "glob"):
+            sib("d", sibling, how)
+    for how in ("rel", "abs", "glob", "absglob"):
+        sib("d.d", "d", how)
+    sib("dae", "dae.d", "rel")
     # symbolic links: the merger's directory rule is lexical, the operating system follows the link
     mk([("entry.dae", 0o600, "include { link.dae }\nglobal { e: 1 }\n"), ("link.dae", "link", ROOT + "/out.dae"),
         (ROOT + "/out.dae", 0o600, "global { out: 1 }\n")])                                   # link inside -> file outside: read (lexically inside)
